@@ -11,7 +11,8 @@ package main
 // returns. Observed from the hook processes' markers, the queue statuses and (build tag verif) the
 // queue contexts:
 //   stopheard     — the stop request reached every queue the configurations name (and main);
-//   aftershutdown — no queue starts anything after Shutdown() returned;
+//   weakstop      — after Shutdown() returned a queue starts at most the one task it had picked (its marker may
+//                   come late on a loaded machine: no bound on that), and nothing at all once it showed "stop";
 //   terminated    — every such queue shows "stop" once the running hook has returned;
 //   latecluster   — no object created after Shutdown() returned appears in any execution.
 
@@ -101,14 +102,18 @@ type c17Exec struct {
 	typ     string
 	n       int
 	objs    []string
-	afterSD bool
+	line    int // index of its `start` line in the log
 }
 
-func c17ReadExecs(logFile string, hooks []*c17Hook) (execs []c17Exec, stopSeen bool) {
-	for _, l := range readLog(logFile) {
+// c17ReadExecs: the executions in log order, the index of the STOP line (-1: none), the number of lines.
+func c17ReadExecs(logFile string, hooks []*c17Hook) (execs []c17Exec, stopLine int, nLines int) {
+	stopLine = -1
+	lines := readLog(logFile)
+	nLines = len(lines)
+	for i, l := range lines {
 		f := strings.Fields(l)
 		if len(f) >= 1 && f[0] == "STOP" {
-			stopSeen = true
+			stopLine = i
 			continue
 		}
 		if len(f) != 6 || f[0] != "start" {
@@ -125,12 +130,12 @@ func c17ReadExecs(logFile string, hooks []*c17Hook) (execs []c17Exec, stopSeen b
 					if f[5] != "-" {
 						objs = strings.Split(f[5], "+")
 					}
-					execs = append(execs, c17Exec{hook: h, bind: b, typ: f[3], n: n, objs: objs, afterSD: stopSeen})
+					execs = append(execs, c17Exec{hook: h, bind: b, typ: f[3], n: n, objs: objs, line: i})
 				}
 			}
 		}
 	}
-	return execs, stopSeen
+	return execs, stopLine, nLines
 }
 
 func c17OperatorKube(r *Run, c *Case, rng *Rng) {
@@ -314,7 +319,7 @@ func c17OperatorKube(r *Run, c *Case, rng *Rng) {
 	}
 	warmName := fmt.Sprintf("o%d", warm)
 	warmSeen := func() bool {
-		execs, _ := c17ReadExecs(logFile, hooks)
+		execs, _, _ := c17ReadExecs(logFile, hooks)
 		seen := map[*c17Bind]bool{}
 		for _, e := range execs {
 			if e.typ != "Event" {
@@ -354,7 +359,7 @@ func c17OperatorKube(r *Run, c *Case, rng *Rng) {
 		}
 	}
 	startsOf := func(h *c17Hook) int {
-		execs, _ := c17ReadExecs(logFile, hooks)
+		execs, _, _ := c17ReadExecs(logFile, hooks)
 		n := 0
 		for _, e := range execs {
 			if e.hook == h {
@@ -401,6 +406,29 @@ func c17OperatorKube(r *Run, c *Case, rng *Rng) {
 
 	op.Shutdown() // returns when every queue shows "stop" or after WaitQueuesTimeout (shortened by the suite)
 
+	// A queue that shows "stop" has no hook process any more (the handler runs the hook synchronously and
+	// the worker sets the status after its last handler returned): whatever line that queue's hooks write
+	// after the status was seen is an execution after the worker's exit — no timing assumption in that.
+	stopped := func(k int) bool {
+		q := op.TaskQueues.GetByName(c17QueueName(k))
+		return q != nil && q.GetStatus() == "stop"
+	}
+	exitPos := map[int]int{} // queue -> number of log lines when it was first seen stopped
+	observeStops := func() bool {
+		all := true
+		for _, k := range want {
+			if _, ok := exitPos[k]; ok {
+				continue
+			}
+			if stopped(k) {
+				exitPos[k] = len(readLog(logFile))
+			} else {
+				all = false
+			}
+		}
+		return all
+	}
+	observeStops()
 	// has the stop request reached every queue? (the contexts, no timing involved)
 	var heard []int
 	for k := 0; k <= nq; k++ {
@@ -428,18 +456,7 @@ func c17OperatorKube(r *Run, c *Case, rng *Rng) {
 		}
 	}
 	_ = os.Remove(filepath.Join(dir, "block-h1")) // the current handler returns
-	stopped := func(k int) bool {
-		q := op.TaskQueues.GetByName(c17QueueName(k))
-		return q != nil && q.GetStatus() == "stop"
-	}
-	allStopped := waitFor(func() bool {
-		for _, k := range want {
-			if !stopped(k) {
-				return false
-			}
-		}
-		return true
-	}, 20*time.Second)
+	allStopped := waitFor(observeStops, 20*time.Second)
 	if allStopped {
 		time.Sleep(30 * time.Millisecond)
 	} else {
@@ -452,41 +469,51 @@ func c17OperatorKube(r *Run, c *Case, rng *Rng) {
 		fmt.Sprintf("queues=%s heard=%s", joinInts(present), joinInts(heard)))
 	// --- the property on what the implementation showed
 	c.Oracle(fmt.Sprintf("stopheard want=%s heard=%s", joinInts(want), joinInts(heard)))
-	execs, _ := c17ReadExecs(logFile, hooks)
+	execs, stopLine, nLines := c17ReadExecs(logFile, hooks)
 	var ev []string
 	var seenObjs []string
 	seenObj := map[string]bool{}
-	stopPut := false
-	for n, e := range execs {
-		if e.afterSD && !stopPut {
-			ev = append(ev, "S")
-			stopPut = true
-		}
-		qn := e.bind.queueNo
-		if e.typ == "Synchronization" {
-			qn = 0 // Synchronization runs in the main queue whatever the binding's queue is
-		}
-		id := e.hook.idx*1000 + n + 1
-		ev = append(ev, fmt.Sprintf("s%d:%d:%d", qn+1, id, id))
-		for _, o := range e.objs {
-			if !seenObj[o] {
-				seenObj[o] = true
-				seenObjs = append(seenObjs, o)
-			}
-		}
-	}
-	if !stopPut {
-		ev = append(ev, "S")
-	}
 	var qs []int
 	for _, k := range want {
 		qs = append(qs, k+1)
-		if stopped(k) {
-			ev = append(ev, fmt.Sprintf("x%d", k+1))
+	}
+	putExits := func(upTo int) { // the exits observed before line upTo was written
+		for _, k := range want {
+			if p, ok := exitPos[k]; ok && p <= upTo {
+				ev = append(ev, fmt.Sprintf("x%d", k+1))
+				delete(exitPos, k)
+			}
 		}
 	}
+	next := 0
+	for i := 0; i < nLines; i++ {
+		putExits(i)
+		if i == stopLine {
+			ev = append(ev, "S")
+		}
+		for next < len(execs) && execs[next].line == i {
+			e := execs[next]
+			next++
+			qn := e.bind.queueNo
+			if e.typ == "Synchronization" {
+				qn = 0 // Synchronization runs in the main queue whatever the binding's queue is
+			}
+			id := e.hook.idx*1000 + next
+			ev = append(ev, fmt.Sprintf("s%d:%d:%d", qn+1, id, id))
+			for _, o := range e.objs {
+				if !seenObj[o] {
+					seenObj[o] = true
+					seenObjs = append(seenObjs, o)
+				}
+			}
+		}
+	}
+	if stopLine < 0 {
+		ev = append(ev, "S")
+	}
+	putExits(nLines + 1)
 	sort.Strings(seenObjs)
-	c.Oracle(fmt.Sprintf("aftershutdown q=%s ev=%s", joinInts(qs), joinStrs(ev)))
+	c.Oracle(fmt.Sprintf("weakstop q=%s ev=%s", joinInts(qs), joinStrs(ev)))
 	c.Oracle(fmt.Sprintf("terminated q=%s ev=%s", joinInts(qs), joinStrs(ev)))
 	c.Oracle(fmt.Sprintf("latecluster late=%s seen=%s", joinStrs(late), joinStrs(seenObjs)))
 	c.Nontrivial = true
